@@ -415,6 +415,20 @@ func (env *Env) binop(n *Node) *Value {
 	a := env.eval(n.Kids[0])
 	b := env.eval(n.Kids[1])
 	a, b = env.coerceNil(a, b)
+	if (op == "==" || op == "!=") && (n.Kids[0].Op == "nil" || n.Kids[1].Op == "nil") {
+		// the address of a field or element compared with nil: it is nil only if... never; the base object exists
+		l := a.Loc
+		if l == nil {
+			l = b.Loc
+		}
+		if l != nil && len(l.Idx) >= 1 && (a.Loc == nil || b.Loc == nil) {
+			nonnil := not(eq(l.Idx[0], "0"))
+			if op == "==" {
+				return term(not(nonnil), sBool, boolT)
+			}
+			return term(nonnil, sBool, boolT)
+		}
+	}
 	if a.Loc != nil || b.Loc != nil {
 		env.fail("operands of %s must be values, not locations, in %s", op, n)
 	}
